@@ -115,9 +115,16 @@ class Repo:
         key = (rel, qual)
         if key not in cache:
             from .canon import canonicalise, roles, signatures
-            from .normalise import inline_temporaries, desugar_ifexp
+            from .normalise import inline_temporaries, desugar_ifexp, inline_module_constants, module_constants
             rkey = f'{rel}::{qual}'
             out = node
+            if not os.environ.get('HIDVERIF_NO_NORMALISE') and roles() and f'{rel}::@module' in roles():
+                mc = self.__dict__.setdefault('_module_consts', {})
+                if rel not in mc:
+                    mc[rel] = module_constants(self.module(rel), set(roles()[f'{rel}::@module']))
+                out = inline_module_constants(out, mc[rel])
+                from .normalise import unroll_literal_loops
+                out = unroll_literal_loops(out)
             if not os.environ.get('HIDVERIF_NO_NORMALISE') and roles():
                 table = roles().get(rkey) or {}
                 gens = self._generator_names(rel, qual)
